@@ -817,6 +817,15 @@ func (d *driver) main(only string, scale float64) int {
 	for _, k := range known {
 		knownSeen[k.raw] = k.seen
 	}
+	if len(d.samples) == 0 {
+		d.samples = []any{}
+		for i, v := range d.violations {
+			if i >= 3 {
+				break
+			}
+			d.samples = append(d.samples, map[string]any{"mode": v.Mode, "build": v.Build, "violating_case_index": v.Index, "case_seed": v.CaseSeed, "observed": firstLines(v.Msg, 4)})
+		}
+	}
 	cov := map[string]any{
 		"evaluations":         d.evaluations,
 		"distinct_nontrivial": len(d.nontrivial),
